@@ -32,6 +32,37 @@ def pending_fee_subtracted(model, p, ledger_suffix):
     return False
 
 
+def check_fee_lookup_same_asset(ctx, model, crate, rule):
+    """The pending fee subtracted from an asset's balance must be looked up by that same asset's id:
+    `x.amount.checked_sub(get_protocol_fee_for_asset(fees, x.get_id()))`."""
+    n = 0
+    for p in sorted(model.all_paths(crate)):
+        if "::migrations::" in p:
+            continue
+        v = model.view(p)
+        for b, t in v.calls_to(r"helpers::get_protocol_fee_for_asset$"):
+            n += 1
+            ids = set()
+            for o in v.origins_of_operand(t["args"][1], at=v.at_term(b)):
+                c = call_of(v, o)
+                if c and mname(c[1]).endswith("Asset::get_id"):
+                    ids |= {(x.kind, x.a, x.b) for x in v.origins_of_operand(c[1]["args"][0], at=v.at_term(c[0]))}
+                else:
+                    ids.add(("?", repr(o), None))
+            # consumers of the looked-up fee
+            dest = t["dest"]["l"]
+            consumers = []
+            for xb, xt in v.calls_to(r"Uint128::checked_sub$|<cosmwasm_std::Uint128 as std::ops::Sub>::sub$|Uint128::saturating_sub$"):
+                a1 = v.origins_of_operand(xt["args"][1], at=v.at_term(xb))
+                if any(o.kind == "call" and o.b == "%s:bb%d" % (v.path, b) for o in a1):
+                    a0 = v.origins_of_operand(xt["args"][0], at=v.at_term(xb))
+                    consumers.append({(x.kind, x.a, x.b) for x in a0})
+            ok = bool(consumers) and all(cs == ids for cs in consumers) and bool(ids)
+            ctx.ob(rule, "%s|fee-looked-up-for-the-reduced-asset" % p, ok,
+                   "pending fee looked up by the id of %s and subtracted from the balance of %s" % (sorted(ids), [sorted(c) for c in consumers]), v.where(b))
+    ctx.floor(rule, "%s pending-fee lookups" % crate, n, 5)
+
+
 def check_v1_pools(ctx, model, crate, rule):
     """V1: every function reading pool balances (query_pools) for pricing or shares subtracts the pending protocol fees."""
     info = "PairInfoRaw" if crate == "terraswap_pair" else "TrioInfoRaw"
